@@ -66,6 +66,10 @@ func (in *RegInstance) Apply(op string) (string, string) {
 		viol = r.RemovePipelineAndNodes(dash(arg(1)), dash(arg(2)))
 	case "rmnode":
 		viol = r.RemoveNode(dash(arg(1)))
+	case "rmnodex":
+		viol = r.RemoveNodeCancelled(dash(arg(1)))
+	case "rmpipenodesx":
+		viol = r.RemovePipelineAndNodesCancelled(dash(arg(1)), dash(arg(2)))
 	case "send":
 		obs, viol = r.SendProbe(arg(1))
 	case "isany":
